@@ -18,7 +18,7 @@ def run(tier, seed):
         "C01", tier, seed,
         oracles=ORACLES,
         capacities=["default"] if tier == "quick" else ["default", 1],
-        flavour="full",
+        flavour="full" if tier == "quick" else "wide",
         rule="every program of the tier's program space x every format assignment (all modes x all mode orderings "
              "per tensor) for which the real generator returns a kernel x default and deviating dimension vectors "
              "(0,1,2,3) x every joint stored structure of the operands within the cap; evaluate kernel executed on "
